@@ -162,6 +162,10 @@ func (c *vfLCase) seed(tg *vfdoubles.Target) {
 	// root checkpoint: where the numbering of this stream starts
 	tg.Seed(0, "hset", vfC14Cp, vfLRid+"_runid", vfLRid, vfLRid+"_version", config.Version,
 		vfLRid+"_offset", strconv.FormatInt(vfLStart, 10), "bisync_mode", "parallel")
+	// application data in other databases of the stand-alone target (GetCheckpoint visits every non-empty database in
+	// random map order and leaves the connection there: D21 / seeded C14-r8-m1)
+	tg.Seed(2, "set", "app:other", "x")
+	tg.Seed(1+2*int(c.cutSeed&1), "set", "app:more", "y")
 	if c.stale > 0 {
 		// what a full resync leaves behind (ResetStartPoint drops only the root, the finished
 		// snapshot replay writes a new, larger root): frontier + journal of the EARLIER numbering
